@@ -229,6 +229,7 @@ type RenderEvent struct {
 	Guards map[string]bool
 	Vals   []absint.Val
 	Caller *ssa.Function
+	Stack  []*ssa.Function // functions being interpreted when the value was rendered, outermost first
 	Pos    token.Pos
 }
 
@@ -401,7 +402,7 @@ func (m *CPUModel) RunFn(cell CPUCell, entry *ssa.Function, onRender func(Render
 				if ev := ip.CurFn(); ev != nil {
 					caller = ev
 				}
-				onRender(RenderEvent{Sink: "xbuf." + fn.Name(), Vals: a[1:], Caller: caller, Pos: ip.CurPos(), Guards: ip.Guards(st)})
+				onRender(RenderEvent{Sink: "xbuf." + fn.Name(), Vals: a[1:], Caller: caller, Stack: ip.StackFuncs(), Pos: ip.CurPos(), Guards: ip.PathGuards(st)})
 				if fn.Signature.Results().Len() == 1 {
 					return a[0], true
 				}
@@ -427,7 +428,7 @@ func (m *CPUModel) RunFn(cell CPUCell, entry *ssa.Function, onRender func(Render
 					}
 					vals = append(vals, a)
 				}
-				onRender(RenderEvent{Sink: ev.Callee, Vals: vals, Caller: ev.Fn, Pos: ev.Pos, Guards: ip.Guards(st)})
+				onRender(RenderEvent{Sink: ev.Callee, Vals: vals, Caller: ev.Fn, Stack: ip.StackFuncs(), Pos: ev.Pos, Guards: ip.PathGuards(st)})
 			}
 			return nil, false
 		}
